@@ -425,6 +425,22 @@ func checkC12Select(c *core.Ctx, ak accessKinds) {
 				}
 				continue
 			}
+			// a failed comma-ok lookup in a frozen table indexed by the access kind:
+			// the access kind is none of the table's keys
+			if e2, isE := cd.V.(*ssa.Extract); isE && e2.Index == 1 && !cd.Pos {
+				if lk, isLk := e2.Tuple.(*ssa.Lookup); isLk && lk.CommaOk && argIsParam(lk.Index, pol, accIdx) {
+					if g := loadedGlobal(lk.X); g != nil {
+						if entries, frozen := globalMapEntries(c, g); frozen {
+							for _, e := range entries {
+								if k, isK := facts.ConstInt(e.Key); isK {
+									accessNot[k] = true
+								}
+							}
+						}
+					}
+				}
+				continue
+			}
 			if x, op, y, ok := facts.Cmp(cd); ok {
 				if argIsParam(x, pol, accIdx) {
 					if k, isC := facts.ConstInt(y); isC {
@@ -442,22 +458,50 @@ func checkC12Select(c *core.Ctx, ak accessKinds) {
 				}
 			}
 		}
-		v := r.Results[0]
-		switch {
-		case facts.IsNilConst(facts.Strip(v)):
-			ok := allowTrue || (accessIs[ak.List] && star)
-			c.Check(ok, "C12.R5", "Select.policy/return-nil", r.Pos(), "nil only under allow(name) or (list and \"*\")", "Select's policy returns nil (allowed) on a path where allow(name) is not known true and it is not the (list, \"*\") case")
-		case errGlobal(v) == "ErrDenied":
-			seenDenied = true
-			ok := allowFalse && accessIs[ak.Write]
-			c.Check(ok, "C12.R5", "Select.policy/return-denied", r.Pos(), "ErrDenied exactly under !allow and write", "ErrDenied returned on a path that is not (!allow(name) and access == AccessWrite)")
-		case errGlobal(v) == "ErrNameUnknown":
-			seenUnknown = true
-			ok := allowFalse && accessNot[ak.Write]
-			c.Check(ok, "C12.R5", "Select.policy/return-unknown", r.Pos(), "ErrNameUnknown under !allow and not write", "ErrNameUnknown returned on a path where access may be AccessWrite or allow(name) may hold")
-		default:
-			c.Fail("C12.R5", "Select.policy/return-other", r.Pos(), "Select's policy returns something other than nil, ErrDenied or ErrNameUnknown")
+		judge := func(v ssa.Value, accessIs, accessNot map[int64]bool) {
+			switch {
+			case facts.IsNilConst(facts.Strip(v)):
+				ok := allowTrue || (accessIs[ak.List] && star)
+				c.Check(ok, "C12.R5", "Select.policy/return-nil", r.Pos(), "nil only under allow(name) or (list and \"*\")", "Select's policy returns nil (allowed) on a path where allow(name) is not known true and it is not the (list, \"*\") case")
+			case errGlobal(v) == "ErrDenied":
+				seenDenied = true
+				ok := allowFalse && accessIs[ak.Write]
+				c.Check(ok, "C12.R5", "Select.policy/return-denied", r.Pos(), "ErrDenied exactly under !allow and write", "ErrDenied returned on a path that is not (!allow(name) and access == AccessWrite)")
+			case errGlobal(v) == "ErrNameUnknown":
+				seenUnknown = true
+				ok := allowFalse && accessNot[ak.Write]
+				c.Check(ok, "C12.R5", "Select.policy/return-unknown", r.Pos(), "ErrNameUnknown under !allow and not write", "ErrNameUnknown returned on a path where access may be AccessWrite or allow(name) may hold")
+			default:
+				c.Fail("C12.R5", "Select.policy/return-other", r.Pos(), "Select's policy returns something other than nil, ErrDenied or ErrNameUnknown")
+			}
 		}
+		v := r.Results[0]
+		// the error comes from a frozen table indexed by the access kind, under a
+		// successful comma-ok lookup: one outcome per entry
+		if ex, isEx := facts.Resolve(v).(*ssa.Extract); isEx && ex.Index == 0 {
+			if lk, isLk := ex.Tuple.(*ssa.Lookup); isLk && lk.CommaOk && argIsParam(lk.Index, pol, accIdx) {
+				hit := false
+				for _, cd := range conds {
+					if e2, isE := cd.V.(*ssa.Extract); isE && e2.Tuple == ex.Tuple && e2.Index == 1 && cd.Pos {
+						hit = true
+					}
+				}
+				if g := loadedGlobal(lk.X); g != nil && hit {
+					if entries, frozen := globalMapEntries(c, g); frozen && len(entries) > 0 {
+						for _, e := range entries {
+							k, isK := facts.ConstInt(e.Key)
+							if !isK {
+								c.Fail("C12.R5", "Select.policy/return-other", e.Pos, "non-constant key in the policy's error table")
+								continue
+							}
+							judge(e.Val, map[int64]bool{k: true}, map[int64]bool{})
+						}
+						continue
+					}
+				}
+			}
+		}
+		judge(v, accessIs, accessNot)
 	}
 	c.Check(seenDenied && seenUnknown, "C12.R5", "Select.policy/both-errors", pol.Pos(), "policy has an ErrDenied and an ErrNameUnknown rejection", "Select's policy lacks the ErrDenied (write) or ErrNameUnknown (read/list/delete) rejection")
 }
